@@ -123,7 +123,9 @@ TEnd ==
   /\ Consume /\ Ev.e = "end" /\ Same /\ UNCHANGED ops
   /\ bad' = IF Ev.panicked THEN "the server panicked" ELSE ""
 
-TNext == TBegin \/ Request \/ Process \/ TBurst \/ TRows \/ TGet \/ TEnd
+\* the harness waited for background work (it reports what it saw; the look that follows is judged)
+TAux == IsStep("aux") /\ Same /\ bad' = ""
+TNext == TAux \/ TBegin \/ Request \/ Process \/ TBurst \/ TRows \/ TGet \/ TEnd
 TSpec == TInit /\ [][TNext]_tvars
 
 \* every acknowledged mutation is still there, unchanged, after kill / SIGTERM / restart
